@@ -17,7 +17,7 @@ func bodyComponent(c string) bool {
 
 // C02: first disruptive match interrupts; interruption is final; engine modes hold.
 func C02(run *vf.Run) {
-	run.Rule = "Tx.tla: the Transaction API as a state machine (one action per entry point, Engine.tla as the body of each phase, body buffers with both limit actions). TLC explores every reachable state for call sequences of unbounded length (the witness path is outside the VIEW) over configurations engine mode x one disruptive (deny / drop / redirect, with a status action written before or after it) or ctl:ruleEngine rule in any phase x a second deny in any phase x body access/limits/actions, checking AtMostOnce, InterruptFinal, NothingAfterInterrupt, SameInterruptionReported, DetectionOnlySilent, OffEvaluatesNothing in every state; every edge of the state graph (witness path + call) is replayed on a real transaction and the returned interruption, recorded interruption, fired rules (marker rule per phase = evaluation count), last phase and engine mode are compared with the specified successor(s). Non-trivial = a path on which some rule fired or body bytes were stored"
+	run.Rule = "Tx.tla: the Transaction API as a state machine (one action per entry point, Engine.tla as the body of each phase, body buffers with both limit actions). TLC explores every reachable state for call sequences of unbounded length (the witness path is outside the VIEW) over configurations engine mode x one disruptive (deny / drop / redirect, with a status action written before or after it) or ctl:ruleEngine rule in any phase x a second deny in any phase x body access/limits/actions, checking AtMostOnce, InterruptFinal, NothingAfterInterrupt, SameInterruptionReported, DetectionOnlySilent, OffEvaluatesNothing in every state; every edge of the state graph (witness path + call) is replayed on a real transaction and the returned interruption, recorded interruption, fired rules (marker rule per phase = evaluation count), last phase and engine mode are compared with the specified successor(s). In the other direction (Tx_Trace.tla) random call sequences - repeated, out-of-order and interleaved calls, all write entry points - are driven on real transactions, every call is logged when it returns and TLC validates the log call by call against the same actions (a falsified log must be rejected). Non-trivial = a path on which some rule fired or body bytes were stored"
 	run.Exhaustive = true
 	run.Assume("TLC 1.8.0 explores the bounded Tx_MC instance completely")
 	run.Assume("calls after Close are not generated; ProcessLogging is called at most once per transaction")
@@ -40,6 +40,10 @@ func C02(run *vf.Run) {
 		DisruptKinds: vf.Pick(run, `{"deny", "redirect", "ctlDet", "ctlOn"}`, `{"deny", "drop", "redirect301late", "ctlDet", "ctlOn", "ctlOff"}`),
 		Phases2:      "{1, 2, 3, 4, 5}", Qs: "{1, 2, 3, 4, 5}", ReqShapes: vf.Pick(run, `{"off/Reject"}`, `{"off/Reject", "on/Reject"}`), RespShapes: `{"off/Reject"}`,
 		Workers: 14, Timeout: vf.Pick(run, 15*time.Minute, 120*time.Minute), Relevant: rel})
+	if run.NumViolations() > 0 {
+		return
+	}
+	c02Trace(run)
 }
 
 // C10: body buffering is byte-faithful and limits are enforced exactly.
